@@ -400,7 +400,9 @@ def dialOp (toks : List String) : Option String :=
     let echS (e : Option Bytes) : String := match e with
       | some (x :: xs) => hex (x :: xs)
       | _ => "-"
-    let want := ",".intercalate ((Resolve.targets fr .tcp).map fun t => s!"{ipS t.ip}:{t.port}/{echS t.ech}")
+    -- over TCP, or - when HTTP/3 is chosen - over UDP (what the HTTP/3 round-tripper's Dial enumerates)
+    let net : Resolve.Network := if Transport.useH3 i then .udp else .tcp
+    let want := ",".intercalate ((Resolve.targets fr net).map fun t => s!"{ipS t.ip}:{t.port}/{echS t.ech}")
     let db ← (if dialled = "_" then some [] else unhex dialled)
     let got := (String.fromUTF8? (ByteArray.mk db.toArray)).getD "?"
     some (if want = got then "match" else s!"differ model {want} observed {got}")
